@@ -436,12 +436,28 @@ func guarded(f func()) bool {
 }
 
 // ---- runner ----
+// adminURL: the URL value an administration call is made with. In half of the histories the administrator has ONE url.URL
+// value that it fills in anew for every call (a configuration loader's scratch value): the pool neither keeps it nor
+// recognises a server by the address of the value it was asked about before.
+func (r *runner) adminURL(id int64) *url.URL {
+	if !r.oneValue {
+		return mustParse(urlTable[id])
+	}
+	if r.scratch == nil {
+		r.scratch = &url.URL{}
+	}
+	*r.scratch = *mustParse(urlTable[id])
+	return r.scratch
+}
+
 type runner struct {
-	rr      *roundrobin.RoundRobin
-	in      *interner
-	handed  []*url.URL
-	calls   int
-	lastURL *url.URL
+	oneValue bool
+	scratch  *url.URL
+	rr       *roundrobin.RoundRobin
+	in       *interner
+	handed   []*url.URL
+	calls    int
+	lastURL  *url.URL
 }
 
 func (r *runner) dump() []int64 {
@@ -507,7 +523,7 @@ func (c *rrComp) Run(h *hlib.History) ([]hlib.Mon, bool) {
 	}
 	defer func() { _ = roundrobin.SetDefaultWeight(1) }()
 
-	r := &runner{in: newInterner()}
+	r := &runner{in: newInterner(), oneValue: (len(h.Ops)+int(dw))%2 == 0}
 	next := http.HandlerFunc(func(w http.ResponseWriter, req *http.Request) {
 		r.calls++
 		r.lastURL = req.URL
@@ -641,7 +657,7 @@ func (c *rrComp) Run(h *hlib.History) ([]hlib.Mon, bool) {
 			if hasw != 0 {
 				so = append(so, roundrobin.Weight(int(w)))
 			}
-			given := mustParse(urlTable[id])
+			given := r.adminURL(id)
 			err := rr.UpsertServer(given, so...)
 			// the administrator goes on using its URL value for something else: the pool keeps what it was given
 			given.Scheme, given.Host, given.Path, given.RawQuery = "ftp", "scratch.invalid:21", "/elsewhere", "reused=1"
@@ -690,7 +706,7 @@ func (c *rrComp) Run(h *hlib.History) ([]hlib.Mon, bool) {
 				return nil, false
 			}
 			before := r.strings()
-			gone := mustParse(urlTable[id])
+			gone := r.adminURL(id)
 			err := rr.RemoveServer(gone)
 			gone.Host = "scratch.invalid:21"
 			want := ref.remove(key)
@@ -730,9 +746,20 @@ func (c *rrComp) Run(h *hlib.History) ([]hlib.Mon, bool) {
 			if !validURL(op[1], op[2]) {
 				return nil, false
 			}
-			w, found := rr.ServerWeight(mustParse(urlTable[op[2]]))
+			w, found := rr.ServerWeight(r.adminURL(op[2]))
 			if found != ref.has(op[1]) || found && int64(w) != ref.w[op[1]] {
 				hit("C02", step, "weight", fmt.Sprintf("ServerWeight(%s) = (%d, %v), expected member=%v weight %d", urlTable[op[2]], w, found, ref.has(op[1]), ref.w[op[1]]))
+			}
+			if r.oneValue {
+				// the administrator goes through its list with the one value it has: the next question is about another server
+				for k := int64(1); k <= 3; k++ {
+					other := (op[2] + 3*k) % nServerURLs
+					ok := tableKeys[other]
+					w2, f2 := rr.ServerWeight(r.adminURL(other))
+					if f2 != ref.has(ok) || f2 && int64(w2) != ref.w[ok] {
+						hit("C02", step, "weight", fmt.Sprintf("ServerWeight(%s), asked right after ServerWeight(%s) through the same url.URL value, = (%d, %v), expected member=%v weight %d", urlTable[other], urlTable[op[2]], w2, f2, ref.has(ok), ref.w[ok]))
+					}
+				}
 			}
 			obs = append([]int64{int64(w), hlib.B2i(found)}, r.dump()...)
 		case op[0] == 4 && len(op) == 1:
